@@ -325,7 +325,9 @@ def run_record(case, r):
                 # (periods, min_dt_ratio or None for the documented default of 4): the step limit dt/min_dt_ratio decides on the main menu;
                 # T_min/20 decides - with a non-integer ratio dt / (T_min/20) - on the three extra period lists
                 for periods_o, mdr in ((periods, 2), (periods, 8), (np.array([13 * dt, 50 * dt]), None), (np.array([40 * dt, 15 * dt]), None),
-                                       (np.array([17 * dt, 30 * dt]), 8), (np.array([7 * dt, 100 * dt]), None)):
+                                       (np.array([17 * dt, 30 * dt]), 8), (np.array([7 * dt, 100 * dt]), None),
+                                       # shortest period >= 40 dt: T_min/20 >= 2 dt, the record is integrated at its own step (never coarser)
+                                       (np.array([50 * dt, 100 * dt]), None), (np.array([100 * dt, 41 * dt]), 1)):
                     own_menu = periods_o is not periods
                     sub = dict(base, object_min_dt_ratio=mdr)
                     if own_menu:
